@@ -25,6 +25,7 @@ fn snapshot_profile(name: &str) -> Profile {
     p.toggles = true;
     p.create_place = true;
     p.reload_modes = vec![0, 1, 2];
+    p.reset_tv = true;
     p
 }
 
